@@ -17,6 +17,9 @@ Descs == {[fam |-> f, op |-> o, a |-> a, b |-> 0] : f \in {"fan"}, o \in {"+", "
          \cup {[fam |-> "nestfan", op |-> o, a |-> a, b |-> b] : o \in {"and", "or"}, a \in 2..3, b \in 2..3}
          \cup {[fam |-> f, op |-> o, a |-> a, b |-> 0] : f \in {"chainR", "chainL"}, o \in {"+", "and"}, a \in 1..7}
          \cup {[fam |-> "chainZ", op |-> "+", a |-> a, b |-> 0] : a \in 1..6}
+         \cup {[fam |-> "cmpfan2", op |-> "and", a |-> a, b |-> b] : a \in 2..3, b \in 2..3}
+         \cup {[fam |-> "chainR3", op |-> "+", a |-> a, b |-> 0] : a \in 1..5}
+         \cup {[fam |-> "fanchain", op |-> "+", a |-> a, b |-> b] : a \in 1..3, b \in 1..4}
          \cup {[fam |-> "cmpfan", op |-> o, a |-> a, b |-> 0] : o \in {"and", "or"}, a \in 2..5}
          \cup {[fam |-> "ifchain", op |-> "+", a |-> a, b |-> 0] : a \in 0..3}
 Envs == {[x |-> B(bx), n |-> I(nn)] : bx \in BOOLEAN, nn \in {1, 2}}
